@@ -446,8 +446,8 @@ def _r3_report_chunk(ctx, prog, dets):
         reps = [s for s in walk_function(fi.node) if isinstance(s, ast.Expr) and isinstance(s.value, ast.Call) and
                 isinstance(s.value.func, ast.Attribute) and s.value.func.attr == "report_chunk"]
         nodes = {cfg.node(s) for s in reps}
-        paths = cfg.paths(cfg.entry, {cfg.exit}, limit=256)
-        counts = {sum(1 for n, _ in p if n in nodes) for p in paths}
+        paths = [p for p in cfg.paths(cfg.entry, {cfg.exit}, limit=256) if p and p[-1][0] == cfg.exit]   # normal exits only: a
+        counts = {sum(1 for n, _ in p if n in nodes) for p in paths}                                        # path that raises reports nothing
         if counts != {1}:
             ctx.violated(fi, reps[0] if reps else fi.node, "report_chunk is called %s times on some path; index-reporting "
                          "detectors must report each chunk exactly once" % sorted(counts),
